@@ -79,6 +79,25 @@ def run(ctx):
     ctx.attempt(r127, ctx, rep)
     rep.rule('R12.8', 'Record(row, flds): flds are the text names of the header the row came with')
     ctx.attempt(r128, ctx, rep)
+    from .common import dead_missing as _deadmissing
+    rep.rule('R12.17', 'an operator that accepts `missing` reads it: a view that stores self.missing uses it in some method, a function with a `missing` parameter uses it (otherwise short rows are not padded at all)')
+    _dm = ctx.attempt(_deadmissing, ctx, ['petl.transform', 'petl.util']) or []
+    for _w, _n, _what in _dm:
+        rep.violated('R12.17', _w, _what, 'the %s is never read: the value the caller supplies for absent cells has no effect -- rows '
+                     'shorter than the header are no longer padded with it (they come out short, misaligned, or raise)' % _what, _n)
+    if not _dm:
+        rep.held('R12.17', ('petl.transform', '*'), '`missing` is read wherever it is accepted', '', None)
+    from .common import get_none_conflations as _getnone
+    rep.rule('R12.18', 'a translation read with d.get(k) from a caller-supplied mapping is not tested against None to decide whether the key was present: None is a legal translation')
+    _ng = 0
+    for _fn in ctx.functions(['petl.transform', 'petl.util']):
+        for _n, _x, _d in (ctx.attempt(_getnone, _fn) or []):
+            _ng += 1
+            rep.violated('R12.18', _fn, norm(_n), '`%s` holds `%s.get(...)` of the caller\'s mapping; testing it against None treats a key '
+                         'that is mapped to None like an absent key: the cell the caller asked to turn into None is left as it is'
+                         % (_x, _d), _n)
+    if not _ng:
+        rep.held('R12.18', ('petl.transform', '*'), 'no None test on .get() of a caller-supplied mapping', '', None)
     from .common import check_fill_mismatches as _fills
     rep.rule('R12.16', 'where tables of unequal length are zipped, the test for the exhausted side compares with the fill value handed to zip_longest')
     ctx.floor('zip_longest_functions', ctx.attempt(_fills, ctx, rep, 'R12.16', ctx.functions(['petl.transform', 'petl.util'])) or 0, 2)
@@ -124,7 +143,32 @@ def _len_guarded(pm, node, fn_node):
     """Is the row access under a test of the length of that very row?"""
     target = node.value if isinstance(node, ast.Subscript) else (node.args[0] if isinstance(node, ast.Call) and node.args else None)
     want = 'len(%s)' % norm(target) if target is not None else 'len('
+    def within(test):
+        """True: the test says the index is inside the row; False: it says the index is beyond the end; None: not a
+        comparison with the length of this row"""
+        from ..ladder import positive
+        t, neg = positive(test)
+        if isinstance(t, ast.Compare) and len(t.ops) == 1:
+            l, r, op = norm(t.left), norm(t.comparators[0]), t.ops[0]
+            res = None
+            if r == want and isinstance(op, ast.Lt):
+                res = True
+            elif r == want and isinstance(op, ast.GtE):
+                res = False
+            elif l == want and isinstance(op, ast.Gt):
+                res = True
+            elif l == want and isinstance(op, ast.LtE):
+                res = False
+            if res is not None:
+                return (not res) if neg else res
+        return None
     for p, c in enclosing(pm, node, stop=fn_node):
+        if isinstance(p, (ast.If, ast.IfExp)):
+            w = within(p.test)
+            in_body = (p.body is c) if isinstance(p, ast.IfExp) else any(c is b for b in p.body)
+            in_else = (p.orelse is c) if isinstance(p, ast.IfExp) else any(c is b for b in p.orelse)
+            if (w is True and in_body) or (w is False and in_else):
+                return True
         if isinstance(p, ast.IfExp) and p.body is c and want in norm(p.test):
             return True
         if isinstance(p, ast.BoolOp) and isinstance(p.op, ast.And):
@@ -287,14 +331,18 @@ def r123(ctx, rep):
 
 # ------------------------------------------------------------------------ R12.4
 def r124(ctx, rep):
-    fn = ctx.project.need_fn('petl.transform.conversions:iterfieldconvert.transform_value')
+    from .common import value_transformer_site
+    fn, _m = value_transformer_site(ctx)
+    if fn is None:
+        raise AnalysisError('anchor vanished: the per-value transformer of petl.transform.conversions:iterfieldconvert')
     try:
         oc = simulate(fn.node.body, {'i in converter_functions': False})
     except (Unsupported, KeyError) as e:
         rep.undecided('R12.4', fn, 'no converter', 'ladder not recognised: %s' % e, fn.node)
         oc = None
     if oc is not None:
-        if oc.kind == 'return' and norm(oc.node.value) == 'v' and not oc.effects:
+        real_effects = [e for e in oc.effects if not (isinstance(e, ast.Expr) and isinstance(e.value, ast.Constant))]
+        if oc.kind == 'return' and norm(oc.node.value) == 'v' and not real_effects:
             rep.held('R12.4', fn, 'no converter -> return v', '', fn.node)
         else:
             rep.violated('R12.4', fn, 'no converter -> return v',
